@@ -332,14 +332,20 @@ class Spec(object):
         out = []
         for p in pieces:
             if p[0] == 'S':
-                attrs = {}
+                attrs, attrs_n = {}, {}
                 for an, av in p[2]:
                     if av[0] == 'lit':
-                        attrs[an] = av[1]
+                        attrs[an] = attrs_n[an] = av[1]
                     else:
                         s = item_str(args[av[1]])
-                        attrs[an] = normws(s) if self.case['strip'] else s
-                out.append(['S', p[1], attrs])
+                        attrs[an] = s
+                        # the tag is part of a Markup text: with strip_whitespace the filter normalises the
+                        # whole text run, attribute values included (unless inside pre/textarea)
+                        attrs_n[an] = normws(s) if self.case['strip'] else s
+                if attrs_n != attrs:
+                    out.append(['ALT', [[['S', p[1], attrs_n]], [['S', p[1], attrs]]]])
+                else:
+                    out.append(['S', p[1], attrs])
             elif p[0] == 'E':
                 out.append(['E', p[1]])
             elif p[0] == 'T':
@@ -504,21 +510,31 @@ def first_choice(toks):
     return out
 
 
+def same_tokens(want, got, strip):
+    """token lists agree; with strip_whitespace a run of character data may come back verbatim or with
+    the documented normalisation (which elements preserve white space is not C01's concern)"""
+    if len(want) != len(got):
+        return False
+    for w, g in zip(want, got):
+        if w[0] == 'T' and g[0] == 'T':
+            if g[1] != w[1] and not (strip and g[1] == normws(w[1])):
+                return False
+        elif w != g:
+            return False
+    return True
+
+
 def match_alts(toks, got, strip, method=None):
-    """is there a resolution of the ALT tokens under which coalesce(toks, strip) == got?
+    """is there a resolution of the ALT tokens under which the skeleton agrees with `got`?
     Depth-first with pruning: everything before the last text run of the resolved prefix must
     already agree with `got` (so the search is linear unless alternatives really are ambiguous)."""
     budget = [20000]
 
-    def flat(ts):
-        # splice nested alternatives in place: work on a stack of remaining tokens
-        return list(ts)
-
     def consistent(prefix):
-        c = coalesce(prefix, strip, method)
+        c = coalesce(prefix)
         if c and c[-1][0] == 'T':
             c = c[:-1]
-        return c == got[:len(c)]
+        return same_tokens(c, got[:len(c)], strip)
 
     def go(rest, acc):
         budget[0] -= 1
@@ -530,14 +546,14 @@ def match_alts(toks, got, strip, method=None):
             acc.append(rest[i])
             i += 1
         if i == len(rest):
-            return coalesce(acc, strip, method) == got
+            return same_tokens(coalesce(acc), got, strip)
         if not consistent(acc):
             return False
         for alt in rest[i][1]:
             if go(list(alt) + rest[i + 1:], acc):
                 return True
         return False
-    return go(flat(toks), [])
+    return go(list(toks), [])
 
 
 PRESERVE = {'xml': frozenset(), 'xhtml': frozenset(['pre', 'textarea']), 'html': frozenset(['pre', 'textarea'])}
